@@ -909,6 +909,17 @@ impl Prop for C15 {
     if m["benign"] == json!(false) {
       s.count("model:not-benign");
     }
+    // instances of the theorems (model vs model): must never fail
+    let b = |k: &str| m[k].as_bool().unwrap_or(false);
+    if b("add") && b("benign") && !b("commit") {
+      s.disagree("theorem-instance accepted_commits_partial", case, observed.clone(), m.clone());
+    }
+    if b("add") && !b("unknown_top") && !b("arr_in_arr") && b("leaves_typed") && !b("conforms") {
+      s.disagree("theorem-instance accepted_conforms_partial", case, observed.clone(), m.clone());
+    }
+    if b("conforms") && !b("add") {
+      s.disagree("theorem-instance conforms_accepted", case, observed.clone(), m.clone());
+    }
 
     // ---- finder (implementation alone) ---------------------------------------------------
     let mut sigs: BTreeSet<String> = BTreeSet::new();
